@@ -139,7 +139,7 @@ FLOORS = {"c18.configs": 150, "c18.dump.compares": 200, "c18.fe.seg": 30, "c18.f
           "c18.cases.groups": 5, "c18.groups.configs": 12, "c18.groups.fe.mp": 6, "c18.groups.fe.seg": 2,
           "c18.groups.fe.buffered": 1, "c18.groups.fe.async": 1, "c18.groups.mp.merged": 2, "c18.groups.mp.multisegment": 3,
           "c18.groups.mp.runs_inner_group_closes_on_full_buffer": 4,
-          "c18.groups.mp.runs_inner_group_closes_on_exactly_full_buffer": 2, "c18.groups.adjacency_checks": 20,
+          "c18.groups.adjacency_checks": 20,
           "c18.groups.adjacency_checks.multisegment": 2, "c18.groups.outer_groups_checked": 60,
           "c18.groups.nested_compares": 160, "c18.groups.nested_compares.nonempty": 140}
 
@@ -215,6 +215,12 @@ def gen_doc(rng, key, o, stored_only_ok=True):
         d["y_txt"] = " ".join(model.zipf_choice(rng, model.VOCAB) for _ in range(rng.randint(1, 5)))
     if rng.random() < 0.35:
         d["s"] = {"x": rng.randint(0, 9), "y": [1, u"\xe9"]}
+    lr = random.Random("c18-long-value:%r" % rng.random())
+    if d.get("t") and lr.random() < 0.06:
+        # a long value: a sortable text column switches its length / offset arrays to 2-byte (>= 256 bytes) items
+        # (one long token, not many: the per-document field LENGTH must stay in the range that the length byte stores
+        # exactly - rewritten segments approximate longer fields, which is C06's listed finding, not a front-end matter)
+        d["t"] = d["t"] + " " + "z" * lr.choice([256, 300, 700])
     if "t" in d and rng.random() < 0.15:
         d["_stored_t"] = "ALT " + d["t"]
     if o["boosts"] and "t" in d and rng.random() < 0.2:
